@@ -58,6 +58,8 @@ pub struct PipeState {
     pub server_dropped: bool,
     pub server_dropped_seq: Option<u64>,
     pub sink_closed: bool,
+    /// a well-behaved client: answers every relay Ping (frame type 9) with a Pong at once
+    pub auto_pong: bool,
 }
 
 #[derive(Debug)]
@@ -76,6 +78,7 @@ pub struct ClientEnd {
 pub fn pipe(seq: &Seq, out_capacity: usize) -> (SimFramed, ClientEnd) {
     let st = Arc::new(Mutex::new(PipeState {
         reading: true,
+        auto_pong: true,
         out_capacity: out_capacity.max(1),
         ..Default::default()
     }));
@@ -214,6 +217,14 @@ impl Sink<Bytes> for SimFramed {
         g.sends += 1;
         if !g.reading {
             g.unread += 1;
+        }
+        if g.auto_pong && !g.eof_sent && item.len() == 9 && item[0] == 9 {
+            let mut pong = item.to_vec();
+            pong[0] = 10;
+            g.inbound.push_back(InItem::Frame(Bytes::from(pong)));
+            if let Some(w) = g.in_waker.take() {
+                w.wake();
+            }
         }
         g.outbound.push((s, item));
         Ok(())
